@@ -1380,7 +1380,9 @@ class Py2Cpp(ITranspiler):
 		return self.render(node, 'operation/unary_operator', vars={'operator': operator, 'value': value})
 
 	def on_not_compare(self, node: defs.NotCompare, operator: str, value: str) -> str:
-		return self.render(node, 'operation/unary_operator', vars={'operator': '!', 'value': value})
+		# XXX C++の`!`はPythonの`not`より優先度が高いため、単項以外の式は括弧で囲う
+		is_unary = node.value.is_a(defs.Reference, defs.FuncCall, defs.Literal, defs.Group, defs.NotCompare)
+		return self.render(node, 'operation/unary_operator', vars={'operator': '!', 'value': value if is_unary else f'({value})'})
 
 	def on_or_compare(self, node: defs.OrCompare, elements: list[str]) -> str:
 		return self.proc_binary_operation(node, elements)
